@@ -1,10 +1,13 @@
 import GM.CP
 import GM.Alias
+import TM.Cycle
 /-! Line-protocol driver for the graph layer (slices G-cp, G-sel).  Protocol: DESIGN.md appendix A.3.
 
     Q <id> <n>
     N <prio> <debug 0|1> <pred>*                 (n lines; node i = line i; recording order)
     cp                                           -> <id> CP <v0> … <v(n-1)>
+    cyc                                          -> <id> CYC ACCEPT|REFUSE     the build-time cycle check (TM.acyclicB);
+                                                 for this query the N lines may list the nodes in ANY order
     I <node> <id> <tag>*                         (optional, any number: the node's id string and its tags)
     sel <R|-> ; <X|-> ; <T|-> ; <dbg 0|1>        -> <id> SEL <nodes…> | <id> VALUEERROR <why> | <id> OUTOFSCOPE
     asel <R|-> ; <X|-> ; <T|-> ; <dbg 0|1>       the same with ALIASES (r<node> | f | s:<string>), resolved by
@@ -94,6 +97,8 @@ def main : IO Unit := do
               | _, _, _ => IO.println s!"{qid} VALUEERROR alias"
             | _, _, _ => IO.println s!"{qid} PARSE"
           | _ => IO.println s!"{qid} PARSE"
+        | ["cyc"] =>
+          IO.println s!"{qid} CYC {if TM.acyclicB (List.range n) g.preds then "ACCEPT" else "REFUSE"}"
         | ["cp"] =>
           IO.println s!"{qid} CP {" ".intercalate ((List.range n).map fun m => toString (cpAll g prioF m))}"
         | "sel" :: rest =>
